@@ -19,8 +19,8 @@ var recSpend = ev.New("C06", "standard-spends-mutated",
 	"valid", "invalid@scriptSig", "invalid@scriptPubKey", "invalid@redeem", "invalid@witscript", "invalid@witprog", "invalid@final")
 
 func propSpend(t *rapid.T) {
-	s := genG3Spend(t)
 	fs := genFlagSetWitnessHeavy().Draw(t, "flags")
+	s := genG3Spend(t, fs)
 	compare(t, recSpend, s, fs)
 }
 
